@@ -158,4 +158,59 @@ def Cls.tablesOK (c : Cls) : Bool :=
   c.serAttrs.all (fun a => !(c.elem a).attrs.isEmpty) &&
   (c != .funcResult || decide ("name" ∈ c.attrNames))
 
+namespace Sample
+
+/-! ## Sample objects for the non-vacuity examples of C14: every field that can be zero / false /
+    empty is. -/
+
+/-- a `Program` with `n_lines = 0` and an empty path -/
+def program0 : Obj :=
+  ⟨[("program_path", .str ""), ("n_lines", .num 0), ("n_func", .num 0), ("n_loops", .num 0),
+    ("n_func_vars", .num 0), ("n_loop_vars", .num 0)], [], [], [], []⟩
+
+/-- a `FuncResult` with `index = 0`, `infinite = False`, empty strings, no variables, an empty
+    relation and an empty bound (a function without variables) -/
+def func0 : Obj :=
+  ⟨[("name", .str "f"), ("infinite", .bool false), ("start_time", .num 0), ("end_time", .num 0),
+    ("variables", .arr []), ("inf_flows", .str ""), ("index", .num 0), ("func_code", .str "")],
+   [("relation", .obj [("matrix", .arr [])]), ("bound", .obj [])], [], [], []⟩
+
+/-- a `FuncResult` with a relation over two variables, choices and a bound -/
+def func1 : Obj :=
+  ⟨[("name", .str "g"), ("infinite", .bool false), ("start_time", .num 3), ("end_time", .num 4),
+    ("variables", .arr [.str "a", .str "b"]), ("inf_flows", .null), ("index", .num 1),
+    ("func_code", .null)],
+   [("relation", .obj [("matrix", .arr [
+      .arr [.arr [jMono .m [(0, 0)], jMono .p [(1, 0)], jMono .w [(2, 0)]], .arr [jMono .o []]],
+      .arr [.arr [jMono .p [(0, 0), (1, 1)]], .arr [jMono .m []]]])]),
+    ("choices", .arr [.arr [.arr [.num 0, .num 1, .num 2]]]),
+    ("bound", .obj [("a", .str "a;;b"), ("b", .str "b;;")])], [], [], []⟩
+
+def var0 : Obj :=
+  ⟨[("name", .str "x"), ("is_m", .bool false), ("is_w", .bool false), ("is_p", .bool false)],
+   [], [], [], []⟩
+
+def var1 : Obj :=
+  ⟨[("name", .str "y"), ("is_m", .bool false), ("is_w", .bool true), ("is_p", .bool true)],
+   [("choices", .arr [.arr [.arr [.num 0]]]), ("bound", .str "y;n,x;")], [], [], []⟩
+
+def loop0 : Obj :=
+  ⟨[("loop_code", .str ""), ("start_time", .num 0), ("end_time", .num 0)], [], [],
+   [("variables", [("x", var0), ("y", var1)])], []⟩
+
+/-- a function without analysed loops: the empty list is not written at all -/
+def funcLoops0 : Obj :=
+  ⟨[("name", .str "h"), ("start_time", .num 0), ("end_time", .num 0)], [], [("loops", [])], [], []⟩
+
+def funcLoops1 : Obj :=
+  ⟨[("name", .str "f"), ("start_time", .num 0), ("end_time", .num 9)], [],
+   [("loops", [loop0, loop0])], [], []⟩
+
+def result0 : Obj :=
+  ⟨[("start_time", .num 0), ("end_time", .num 0)], [], [],
+   [("loops", [("f", funcLoops1), ("h", funcLoops0)]), ("relations", [("f", func0), ("g", func1)])],
+   [("program", some program0)]⟩
+
+end Sample
+
 end Mwp.Result
